@@ -42,7 +42,7 @@ prop("C05",
      COMMON_ASSUMPTIONS)
 
 prop("C02",
-     ["OW1", "OW2", "HD1", "RJ1", "OW4", "IN1", "PV1", "EQ1"],
+     ["OW1", "OW2", "HD1", "RJ1", "OW4", "IN1", "IN2", "PV1", "EQ1"],
      "The inheritance mechanism is a sharing discipline: object lists and segment objects are shared between segments. Decided: "
      "(OW1) every store to a segment object's slots goes through an object created in the same activation (alias analysis; who-may-write), "
      "(OW2) typestate of self.ordered_objects: mutated only after a fresh copy, helpers called only from the parser, shared index "
